@@ -72,6 +72,13 @@ class V : public RecursiveASTVisitor<V> {
       if (auto *RD = VD->getType().getCanonicalType().getNonReferenceType()->getBaseElementTypeUnsafe()->getAsCXXRecordDecl())
         if (!VD->getType()->isReferenceType() && RD->hasDefinition() && RD->hasNonTrivialDestructor() && RD->getDestructor())
           O << "\tdtor=" << (const void *)RD->getDestructor();
+      if (!VD->isInvalidDecl() && VD->getType()->isIntegralOrEnumerationType() && VD->getType().isConstQualified()) {
+        const VarDecl *Def = nullptr;
+        const Expr *Init = VD->getAnyInitializer(Def);
+        if (Init && Def && !Init->isValueDependent() && !Def->isInvalidDecl())
+          if (const APValue *V = Def->evaluateValue())
+            if (V->isInt()) O << "\tcval=" << llvm::toString(V->getInt(), 10);
+      }
       if (VD->isStaticLocal()) O << "\tstaticlocal=1";
       if (VD->hasGlobalStorage()) O << "\tglobal=1";
     }
